@@ -386,7 +386,7 @@ def _pick_nuc(present, absent, rec):
     return absent[rec[0] % len(absent)], False
 
 
-STRUCT_OPS = ("adjustDensity", "setHeight", "setTemp", "setDim", "setPitch")
+STRUCT_OPS = ("adjustDensity", "setHeight", "setTemp", "setDim", "setPitch", "setMult")
 _OUTER_DIMS = ("od", "op", "widthOuter", "lengthOuter", "base")
 
 
@@ -398,9 +398,15 @@ def check_block_areas(out, tree, nodes, snap):
         except NotImplementedError:
             continue  # (a 3-D component has no area)
         agg = Agg(tree, bn, snap)
-        ah = area * bn.obj.getHeight()
-        out.check(_close(ah, agg.vol), "additivity/area-block",
+        h = bn.obj.getHeight()
+        ah = area * h
+        out.check(_close(ah, agg.vol, math.fsum(abs(snap[l][1]) for l in bn.leaves) / bn.sf), "additivity/area-block",
                   lambda: "%r (symmetry factor %r): getArea()*height=%r, components give volume %r" % (bn.obj, bn.sf, ah, agg.vol))
+        for cn in bn.children:
+            if not cn.obj.is3D:
+                ca, cv = cn.obj.getArea() * h, snap[cn.leaves[0]][1]
+                out.check(_close(ca, cv, 1e-6 * abs(agg.vol)), "additivity/area-component",
+                          lambda: "%r: getArea()*height=%r but getVolume()=%r" % (cn.obj, ca, cv))
 
 
 def _drawn_names(present, op):
@@ -552,6 +558,27 @@ def _structure_step(out, tree, op, step, snap, recheck):
         c.setDimension(key, round(base * f, 6))
         post_snap = _snapshot(tree)
         vol_same = False
+    elif kind == "setMult":
+        # change the multiplicity of a component others are linked to through ``mult`` (clad/gap/wire: "fuel.mult")
+        sibs = bn.children
+        targets_ = [n for n in sibs if "mult" in n.obj.DIMENSION_NAMES and not n.obj.dimensionIsLinked("mult")
+                    and any(o is not n and "mult" in o.obj.DIMENSION_NAMES and o.obj.dimensionIsLinked("mult")
+                            and o.obj.p.mult.getLinkedComponent() is n.obj for o in sibs)]
+        linked = bool(targets_)
+        if not targets_:
+            targets_ = [n for n in sibs if "mult" in n.obj.DIMENSION_NAMES and not n.obj.dimensionIsLinked("mult")
+                        and n.obj is not b._pitchDefiningComponent[0]]
+        if not targets_:
+            out.label("skip:setMult-no-target")
+            return snap
+        node = targets_[op["t"] % len(targets_)]
+        c = node.obj
+        m0 = tree.dim0.setdefault((id(c), "mult"), float(c.getDimension("mult")))
+        m1 = float(max(1, int(round(m0 * (0.5 + 0.6 * op["f"])))))
+        out.label("op:setMult@component", "setMult:link-target" if linked else "setMult:unlinked")
+        c.setDimension("mult", m1)
+        post_snap = _snapshot(tree)
+        vol_same = False
     else:  # setPitch: every block of the assembly (they share one lattice cell); a lone block otherwise
         if not hasattr(b, "getDuctOP") or b._pitchDefiningComponent[0] is None:
             out.label("skip:setPitch-not-supported-here")
@@ -565,7 +592,7 @@ def _structure_step(out, tree, op, step, snap, recheck):
             affected.add(id(t))
         post_snap = _snapshot(tree)
         vol_same = False
-    out.nontrivial = out.nontrivial or kind in ("setTemp", "setDim", "setPitch")
+    out.nontrivial = out.nontrivial or kind in ("setTemp", "setDim", "setPitch", "setMult")
     # -- nothing outside the block(s) concerned changed; inside, the other components keep their composition
     for l, leaf in enumerate(tree.leaf_nodes):
         if id(leaf.parent) not in affected:
@@ -985,7 +1012,7 @@ def _op_strategy(nlevels):
     lvl = st.integers(0, nlevels - 1)
     tgt = st.integers(0, 60)
     known = st.just(False) if EXCLUDE_KNOWN.get(SIG_COMP_MASS_SYM) else st.booleans()
-    item = st.tuples(st.integers(0, 200), st.integers(0, 8).map(lambda x: x == 0), _unit, st.integers(0, 9).map(lambda x: x == 0)).map(list)
+    item = st.tuples(st.integers(0, 200), st.integers(0, 3).map(lambda x: x == 0), _unit, st.integers(0, 9).map(lambda x: x == 0)).map(list)
     mitem = st.tuples(st.integers(0, 200), st.integers(0, 8).map(lambda x: x == 0), st.floats(0.01, 3.0).map(lambda x: round(x, 6))).map(list)
     fitem = st.tuples(st.integers(0, 200), st.floats(0.01, 0.3), st.integers(0, 2).map(lambda x: x == 0)).map(list)
     single = st.one_of(
@@ -1032,6 +1059,7 @@ _struct_op = st.one_of(
                            "T": st.floats(30.0, 800.0).map(lambda x: round(x, 1))}),
     st.fixed_dictionaries({"op": st.just("setDim"), "t": st.integers(0, 60), "outer": st.booleans(), "f": _unit}),
     st.fixed_dictionaries({"op": st.just("setPitch"), "t": st.integers(0, 60), "f": _unit}),
+    st.fixed_dictionaries({"op": st.just("setMult"), "t": st.integers(0, 60), "f": _unit}),
 )
 
 
@@ -1094,6 +1122,19 @@ def _block_spec():
         "geom": st.sampled_from(["hex", "hex", "cart"]),
         "height": st.floats(0.5, 200.0).map(lambda x: round(x, 3)),
         "comps": st.lists(_comp_spec(), min_size=1, max_size=6),
+        # a pin bundle written the way inputs are: gap linked to fuel.od / clad.id, clad/gap/wire mult linked to fuel.mult;
+        # "closed" = the hot fuel has grown past the clad inner diameter (documented: negative area of the void gap)
+        "pin": st.fixed_dictionaries({
+            "on": st.integers(0, 2).map(lambda x: x != 0),
+            "closed": st.booleans(),
+            "delta": st.floats(0.0005, 0.01).map(lambda x: round(x, 5)),
+            "mult": st.sampled_from([7, 19, 37, 61, 127]),
+            "fuelMat": st.sampled_from(["UZr", "UO2", "MOX"]),
+            "tf": st.sampled_from([450.0, 600.0, 700.0]),
+            "tc": st.sampled_from([350.0, 450.0]),
+            "cladOD": st.floats(0.5, 1.2).map(lambda x: round(x, 4)),
+            "wire": st.booleans(),
+        }),
         "derived": st.fixed_dictionaries({
             "on": st.integers(0, 3).map(lambda x: x != 0),
             "fill": st.floats(0.2, 0.8).map(lambda x: round(x, 3)),
@@ -1203,6 +1244,27 @@ def build_block(bspec, idx, out):
     b = (blocks.HexBlock if hexg else blocks.CartesianBlock)("blk%d" % idx, height=bspec["height"])
     b.setType("fuel" if idx == 0 else "reflector")
     maxlen = 0.0
+    pin = bspec.get("pin")
+    if pin and pin["on"]:
+        m = float(pin["mult"])
+        od = pin["cladOD"]
+        probe = components.Circle("probe", "HT9", Tinput=25.0, Thot=pin["tc"], od=od, id=round(0.88 * od, 5), mult=1.0)
+        id_hot = probe.getDimension("id")
+        f_fuel = components.Circle("probe", pin["fuelMat"], Tinput=25.0, Thot=pin["tf"], od=1.0, id=0.0, mult=1.0).getThermalExpansionFactor()
+        fuel_od = round(id_hot * ((1.0 + pin["delta"]) if pin["closed"] else 0.86) / f_fuel, 6)
+        fuel = components.Circle("fuel", pin["fuelMat"], Tinput=25.0, Thot=pin["tf"], od=fuel_od, id=0.0, mult=m)
+        clad = components.Circle("clad", "HT9", Tinput=25.0, Thot=pin["tc"], od=od, id=round(0.88 * od, 5), mult="fuel.mult",
+                                 components={"fuel": fuel})
+        gap = components.Circle("gap", "Void", Tinput=pin["tc"], Thot=pin["tc"], id="fuel.od", od="clad.id", mult="fuel.mult",
+                                components={"fuel": fuel, "clad": clad})
+        parts = [fuel, gap, clad]
+        if pin["wire"]:
+            parts.append(components.Helix("wire", "HT9", Tinput=25.0, Thot=pin["tc"], od=round(0.08 * od, 5), id=0.0, axialPitch=30.0,
+                                          helixDiameter=round(1.08 * od, 5), mult="fuel.mult", components={"fuel": fuel}))
+        for c in parts:
+            b.add(c)
+        maxlen = od
+        out.label("pin:closed-gap" if pin["closed"] else "pin:open-gap")
     for i, cs in enumerate(bspec["comps"]):
         dims, ext = _dims(cs)
         maxlen = max(maxlen, ext)
